@@ -14,6 +14,9 @@
 //   block    : transferable public key (key, user id, positive certification, subkey, binding) through PublicKeyBlockParse +
 //              CheckSelfSignatures + CheckSubkeys; every octet of the block flipped.
 //   validity : CheckValidity with the virtual clock at creation-25h-1s .. creation+expiry+1s, key creation +-1 s, far future.
+// Tiers: quick = tamper loops for SHA-256 cells (all algorithms) and SHA-512/SHA-1 cells of RSA/EdDSA, `types` with SHA-256 and a
+// reduced pair set for DSA/ECDSA, bit 0; thorough = everything, bits 0 and 7, gpg as secondary judge.  Tamper loops run in forked
+// children (a crash inside the library / libgcrypt is an outcome with its own finding key).
 // Covered positions are not hard-coded: a flip is "covered" iff an independent structural parser (c19_pgp.hh) finds that
 // the mutated octets no longer mean the same signature/key (version..hashed subpackets, left 16, MPI *values*, key
 // material values) or no longer parse; acceptance is a violation exactly then.  Unhashed subpackets and slack in MPI bit
